@@ -16,6 +16,7 @@ import (
 	"strconv"
 	"strings"
 	"sync"
+	"time"
 
 	"github.com/indexsupply/shovel/eth"
 )
@@ -35,6 +36,43 @@ type node struct {
 	failPoll map[uint64]bool // request ordinals of header-only "latest" calls that fail
 	npoll    uint64
 	srv      *httptest.Server
+	gateCh   chan struct{} // when set: every request but a head poll waits for it
+	gateAt   uint64        // closed when npoll reaches this
+}
+
+// gate makes the node hold back every request that is not a head poll until
+// k more head polls have been served (event driven: the caller's step stays
+// open over k poll periods without sleeping).
+func (n *node) gate(k uint64) {
+	n.mu.Lock()
+	n.gateCh, n.gateAt = make(chan struct{}), n.npoll+k
+	n.mu.Unlock()
+}
+
+// awaitPolls returns when k more head polls have been served (or the poller
+// has evidently stopped).
+func (n *node) awaitPolls(k uint64) {
+	n.gate(k)
+	n.mu.Lock()
+	ch := n.gateCh
+	n.mu.Unlock()
+	if ch == nil {
+		return
+	}
+	select {
+	case <-ch:
+	case <-time.After(2 * time.Second):
+	}
+}
+
+func isPoll(q rpcReq) bool {
+	if q.Method != "eth_getBlockByNumber" || len(q.Params) != 2 {
+		return false
+	}
+	_, latest := parseNum(q.Params[0])
+	var full bool
+	json.Unmarshal(q.Params[1], &full)
+	return latest && !full
 }
 
 func newNode(head uint64) *node {
@@ -97,6 +135,15 @@ func (n *node) serve(w http.ResponseWriter, r *http.Request) {
 			return
 		}
 		reqs, batch = []rpcReq{one}, false
+	}
+	n.mu.Lock()
+	ch := n.gateCh
+	n.mu.Unlock()
+	if ch != nil && !(len(reqs) == 1 && isPoll(reqs[0])) {
+		select {
+		case <-ch:
+		case <-time.After(5 * time.Second): // the poller died: do not hang the workload
+		}
 	}
 	n.mu.Lock()
 	n.nreq++
@@ -196,6 +243,10 @@ func (n *node) answer(q rpcReq) (res any, fail bool) {
 			num = n.head
 			if !full {
 				n.npoll++
+				if n.gateCh != nil && n.npoll >= n.gateAt {
+					close(n.gateCh)
+					n.gateCh = nil
+				}
 				if n.failPoll[n.npoll] {
 					return nil, true
 				}
